@@ -257,7 +257,7 @@ def one_case(rec, rng, col, m, mech, wit):
 def shard(i, n, tier, seed, rec, hb):
     pvl = common.import_pvl()
     col = pvl.collections
-    total = 320 if tier == "quick" else 20000
+    total = 320 if tier == "quick" else 150000
     for j in range(i, total, n):
         hb.beat()
         rng = random.Random(f"C11-{seed}-{j}")
